@@ -178,6 +178,23 @@ package list
 //@   loop 3:
 //@     invariant ch != nil && wf(c) && -1 <= rangeindex && rangeindex < len(ch.InviteKeys)
 //@     invariant forall k int :: 0 <= k && k < len(ch.InviteKeys) ==> ch.InviteKeys[k] != nil
+// C05: a rotation is accepted only if it carries one ciphertext per entry of the two key lists and the
+// (sorted) identities of those entries are exactly the (sorted) active accounts / live open invites
+//@ uf sameStrings(Slice, Slice) Bool
+//@ package golang.org/x/exp/slices
+//@ func Equal
+//@   modifies nothing
+//@   ensures result == sameStrings(arg0, arg1)
+//@ func Sort
+//@   modifies object arg0 kinds string
+//@ package github.com/anyproto/any-sync/commonspace/object/acl/list
+//@ func (*contentValidator).validateReadKeyChange
+//@   ensures [one_key_per_active_account] err == nil && c.verifier.ShouldValidate() ==> len(updatedUsers) == len(ch.AccountKeys) && len(activeUsers) == len(updatedUsers) && sameStrings(activeUsers, updatedUsers)
+//@   ensures [one_key_per_open_invite]    err == nil && c.verifier.ShouldValidate() ==> len(updatedInvites) == len(ch.InviteKeys) && len(activeInvites) == len(updatedInvites) && sameStrings(activeInvites, updatedInvites)
+//@   loop 2:
+//@     invariant len(updatedUsers) == rangeindex + 1
+//@   loop 3:
+//@     invariant len(updatedInvites) == rangeindex + 1 && len(updatedUsers) == len(ch.AccountKeys)
 
 // Removal: only managers; never oneself, an outsider or the owner; an Admin only by the owner;
 // no identity twice.
